@@ -1134,6 +1134,16 @@ func (l *Ledger) Truncate(utxovmLastID []byte) error {
 		}
 	}
 
+	// the target becomes the tip: its next link must not keep naming a removed block
+	if len(block.NextHash) > 0 {
+		block.NextHash = []byte{}
+		err = l.saveBlock(block, batchWrite)
+		if err != nil {
+			l.xlog.Warn("truncate failed when saving the new tip block", "err", err)
+			return err
+		}
+	}
+
 	newMeta.TrunkHeight = block.Height
 	metaBuf, err := proto.Marshal(newMeta)
 	if err != nil {
